@@ -268,6 +268,12 @@ func staleDefaultTime(x *mon.Ctx) {
 		return &verify.Options{TrustedRoots: pool, Getter: &world.Getter{R: map[string]world.Resp{}}}
 	}
 	shared := mk()
+	// a second re-used value whose FIRST use is a verification that fails (a forged quote): the default time of a
+	// failed call must not stick either
+	sharedAfterFailure := mk()
+	forged := append([]byte(nil), raw...)
+	forged[100] ^= 1
+	errForged := verify.RawTdxQuote(forged, sharedAfterFailure)
 	t1 := time.Now()
 	err1 := verify.RawTdxQuote(raw, shared)
 	if !t1.Before(exp.Add(-500 * time.Millisecond)) {
@@ -280,6 +286,7 @@ func staleDefaultTime(x *mon.Ctx) {
 	}
 	time.Sleep(time.Until(exp.Add(2 * time.Second)))
 	errShared := verify.RawTdxQuote(raw, shared)
+	errAfterFailure := verify.RawTdxQuote(raw, sharedAfterFailure)
 	errFresh := verify.RawTdxQuote(raw, mk())
 	wit := map[string]any{"leaf_not_after": exp, "first_call": t1, "second_call": time.Now(), "shared_err": fmt.Sprint(errShared), "fresh_err": fmt.Sprint(errFresh)}
 	if errFresh == nil {
@@ -289,6 +296,12 @@ func staleDefaultTime(x *mon.Ctx) {
 	if (errShared == nil) != (errFresh == nil) {
 		x.Violation("stale-default-time", "", fmt.Sprintf("Options.Now left nil: after the leaf expired the re-used options value still accepts (err=%v) while a fresh value rejects (%v): the default time of the first call was persisted in the caller's options", errShared, errFresh), "none", wit)
 	}
+	if errForged == nil {
+		x.Broken("stale-default-time: the forged quote was accepted")
+	} else if (errAfterFailure == nil) != (errFresh == nil) {
+		x.Violation("stale-default-time", "after-failed-call", fmt.Sprintf("Options.Now left nil: an options value whose first use was a FAILED verification still accepts the chain after it expired (err=%v) while a fresh value rejects (%v)", errAfterFailure, errFresh), "none", wit)
+	}
+	x.Note("stale-default-time", "after-failed-call", errAfterFailure == nil, false, true)
 	x.Note("stale-default-time", "", errShared == nil, false, true)
 	x.Sample(wit)
 }
